@@ -10,7 +10,7 @@ import re
 
 from vcheck import Machinery, pmap
 
-TOK = r'''(?P<SPACE>[ ]+)|(?P<WORD>[ab]+)|(?P<NUM>1+)|(?P<CMT><)|"(?P<STR>[^"]*)"'''
+TOK = r'''(?P<SPACE>[ \x0c]+)|(?P<WORD>[ab]+)|(?P<NUM>1+)|(?P<CMT><)|"(?P<STR>[^"]*)"'''
 SPANS = {'CMT': r"(?P<END_CMT>[^>]*)>"}
 _P = {}
 
@@ -20,7 +20,8 @@ def parsers():
         return _P
     from ak.llparser import LLParser
     _P['skip'] = LLParser(TOK, span_matchers=SPANS, productions={
-        'E': [('ITEM', 'E'), None], 'ITEM': [('WORD', 'OPT'), ('NUM',), ('CMT',), ('STR',)], 'OPT': [('NUM',), None]})
+        'E': [('ITEM', 'E'), None], 'ITEM': [('WORD', 'MODS'), ('NUM',), ('CMT',), ('STR',)], 'MODS': [('OPT', 'OPT2')], 'OPT': [('NUM',), None],
+        'OPT2': [('STR',), None]})
     _P['all'] = LLParser(TOK, span_matchers=SPANS, skip_tokens=set(), productions={
         'E': [('ITEM', 'E'), None], 'ITEM': [('WORD',), ('NUM',), ('CMT',), ('SPACE',), ('STR',)]})
     return _P
@@ -119,13 +120,13 @@ def run(ctx):
                         'the position of the end-of-text token (where trailing empty nodes sit) is the end of the last token',
                         'an unclosed span must raise LexicalError (its position is not judged)']
     texts = []
-    for ml, mx in ((1, 4), (2, 3)) if ctx.quick else ((1, 6), (2, 4), (3, 2)):
+    for ml, mx in ((1, 4), (2, 2)) if ctx.quick else ((1, 5), (2, 3), (3, 2)):
         r = ctx.tlc('llparser/LLTexts.tla', 'SPECIFICATION Spec\nCHECK_DEADLOCK FALSE\nCONSTANTS\n  MaxLines = %d\n  MaxLen = %d\n  Emit = TRUE\n'
                     'INVARIANT Bounded\n' % (ml, mx), workers=16, timeout=3000, heap='12g')
         texts += [t for t in r.printed if isinstance(t, list)]
     n_exh = len(texts)
     r = ctx.tlc('llparser/LLTexts.tla', 'SPECIFICATION Spec\nCHECK_DEADLOCK FALSE\nCONSTANTS\n  MaxLines = 4\n  MaxLen = 7\n  Emit = TRUE\n',
-                workers=8, simulate=(3000 if ctx.quick else 60000) // 8, depth=30, timeout=3000)
+                workers=8, simulate=(6000 if ctx.quick else 80000) // 8, depth=30, timeout=3000)
     sim = [t for t in r.printed if isinstance(t, list)]
     texts += sim
     if n_exh < 3000:
